@@ -151,6 +151,14 @@ class Gen:
             ev = np.zeros(d)
             ev[0], ev[1] = 1 - eps, eps
             return (U * ev) @ U.conj().T
+        if r.random() < self.opts.get("pure_mat", 0.15):
+            # a pure state held as a density matrix (what expand() leaves behind): any over-eager contraction of a
+            # block nobody addressed shows as a changed representation
+            v = ref.haar_vec(r, d)
+            if r.random() < 0.3:
+                v = np.zeros(d, complex)
+                v[int(r.integers(0, d))] = 1.0
+            return np.outer(v, v.conj())
         if x < 0.2 and d >= 2:
             # degenerate spectrum, rank 2
             U = ref.haar_unitary(r, d)
